@@ -865,6 +865,10 @@ func funcType(ft *ast.FuncType) (*Function, error) {
 		for _, name := range param.Names {
 			f.Args = append(f.Args, Arg{Name: name.Name, Type: typ})
 		}
+		// an unnamed parameter is still a parameter
+		if len(param.Names) == 0 {
+			f.Args = append(f.Args, Arg{Name: fmt.Sprintf("arg%d", len(f.Args)), Type: typ})
+		}
 	}
 	return f, nil
 }
